@@ -282,6 +282,11 @@ fn run_model_accumulation(ctx: &mut Ctx, r: &mut Rng) {
                     return;
                 }
                 for j in 0..v.len() {
+                    // (an error scale that is not a number bounds nothing: the element is not judged)
+                    if !scale[i][j].is_finite() {
+                        ctx.count("elements_not_judged_error_scale_not_finite", 1);
+                        continue;
+                    }
                     let sc = scale[i][j].max(1.0) * 10.0;
                     let e = (v[j] - want[i][j]).abs();
                     ctx.fmax("model-accumulation", e / (tau() * sc));
